@@ -404,6 +404,10 @@ func (e *Engine) goClauses(fc *FuncContract, fn *ssa.Function, pre bool) (stmts 
 	}
 	for i, en := range clauses {
 		label := clauseLabel(en, i)
+		if en.Local {
+			skipped = append(skipped, label+": mentions local variables of the function")
+			continue
+		}
 		src, err := func() (s string, err error) {
 			defer func() {
 				if r := recover(); r != nil {
